@@ -195,6 +195,20 @@ macro_rules! c19_one1 {
                 // fast path: static rank-1 query
                 let fast = guard(|| interp.interp_array(&$crate::c19_sto!($sto, std::convert::identity, q1)).unwrap());
                 inst.casts("interp_array(Ix1)", 2);
+                // the same rank-1 query as a reversed (negative stride) and as a strided view
+                let fast_rev = guard(|| {
+                    let rev: Array1<$T> = q1.iter().rev().copied().collect();
+                    interp.interp_array(&rev.slice($crate::ndarray::s![..;-1])).unwrap()
+                });
+                inst.casts("interp_array(Ix1, reversed view)", 2);
+                let fast_strided = guard(|| {
+                    let mut big: Array1<$T> = Array1::from_elem(2 * q1.len(), q1[0]);
+                    for (i, v) in q1.iter().enumerate() {
+                        big[2 * i] = *v;
+                    }
+                    interp.interp_array(&big.slice($crate::ndarray::s![..;2])).unwrap()
+                });
+                inst.casts("interp_array(Ix1, strided view)", 2);
                 let general_dyn = guard(|| {
                     let q = q1.clone().into_dyn();
                     interp.interp_array(&$crate::c19_sto!($sto, std::convert::identity, q)).unwrap()
@@ -226,6 +240,20 @@ macro_rules! c19_one1 {
                 match (fast, general_dyn, general_2, general_3, zero_d, singles) {
                     (Ok(f), Ok(gd), Ok(g2), Ok(g3), Ok(z), Ok(s)) => {
                         let fb = bits(&mut f.iter().copied());
+                        match (&fast_rev, &fast_strided) {
+                            (Ok(r), Ok(st)) => {
+                                inst.compare("Ix1 vs Ix1 reversed view", &fb, &bits(&mut r.iter().copied()));
+                                inst.compare("Ix1 vs Ix1 strided view", &fb, &bits(&mut st.iter().copied()));
+                            }
+                            (a, b) => {
+                                if let Err(p) = a {
+                                    inst.failed("interp_array(Ix1, reversed view)", p);
+                                }
+                                if let Err(p) = b {
+                                    inst.failed("interp_array(Ix1, strided view)", p);
+                                }
+                            }
+                        }
                         inst.compare("Ix1 vs IxDyn(rank 1)", &fb, &bits(&mut gd.iter().copied()));
                         inst.compare("Ix1 vs Ix2 (n,1)", &fb, &bits(&mut g2.iter().copied()));
                         inst.compare("Ix1 vs Ix3 (n,1,1)", &fb, &bits(&mut g3.iter().copied()));
@@ -330,6 +358,14 @@ macro_rules! c19_one2 {
                         .unwrap()
                 });
                 inst.casts("interp_array(Ix1)", 3);
+                let fast_rev = guard(|| {
+                    let rx: Array1<$T> = qx.iter().rev().copied().collect();
+                    let ry: Array1<$T> = qy.iter().rev().copied().collect();
+                    interp
+                        .interp_array(&rx.slice($crate::ndarray::s![..;-1]), &ry.slice($crate::ndarray::s![..;-1]))
+                        .unwrap()
+                });
+                inst.casts("interp_array(Ix1, reversed views)", 3);
                 let general_dyn = guard(|| {
                     let a = qx.clone().into_dyn();
                     let b = qy.clone().into_dyn();
@@ -385,6 +421,10 @@ macro_rules! c19_one2 {
                 match (fast, general_dyn, general_2, general_3, zero_d, singles) {
                     (Ok(f), Ok(gd), Ok(g2), Ok(g3), Ok(z), Ok(s)) => {
                         let fb = bits(&mut f.iter().copied());
+                        match &fast_rev {
+                            Ok(r) => inst.compare("Ix1 vs Ix1 reversed views", &fb, &bits(&mut r.iter().copied())),
+                            Err(p) => inst.failed("interp_array(Ix1, reversed views)", p),
+                        }
                         inst.compare("Ix1 vs IxDyn(rank 1)", &fb, &bits(&mut gd.iter().copied()));
                         inst.compare("Ix1 vs Ix2 (n,1)", &fb, &bits(&mut g2.iter().copied()));
                         inst.compare("Ix1 vs Ix3 (1,n,1)", &fb, &bits(&mut g3.iter().copied()));
